@@ -107,22 +107,28 @@ func malformedMessage(c *Conversation) {
 }
 
 func (v otrV3) verifyInstanceTags(c *Conversation, their, our uint32) error {
+	// the peer's tag is learnt only from a message that passes all checks below
+	previousTheirInstanceTag := c.theirInstanceTag
+
 	if c.theirInstanceTag == 0 {
 		c.theirInstanceTag = their
 	}
 
 	if our > 0 && our < minValidInstanceTag {
+		c.theirInstanceTag = previousTheirInstanceTag
 		malformedMessage(c)
 		return errInvalidOTRMessage
 	}
 
 	if their < minValidInstanceTag {
+		c.theirInstanceTag = previousTheirInstanceTag
 		malformedMessage(c)
 		return errInvalidOTRMessage
 	}
 
 	if (our != 0 && c.ourInstanceTag != our) ||
 		(c.theirInstanceTag != their) {
+		c.theirInstanceTag = previousTheirInstanceTag
 		c.messageEvent(MessageEventReceivedMessageForOtherInstance)
 		return errReceivedMessageForOtherInstance
 	}
